@@ -215,6 +215,7 @@ def check_crit(case, ctx):
     ctx.close('C20.crit/Tc', eos.get_Tc(), Tc, rtol=1e-12)
     ctx.close('C20.crit/Pc', eos.get_Pc(), Pc, rtol=1e-12)
     ctx.close('C20.crit/Vc', eos.get_Vc(n=n), 3 * n * eos.b, rtol=1e-14)
+    ctx.close('C20.crit/Vc-default-amount', eos.get_Vc(), 3 * eos.b, rtol=1e-14)      # documented default: one mole
     # textbook a, b
     ctx.close('C20.crit/a', eos.a, 27. * (R * Tc) ** 2 / (64. * Pc * BAR), rtol=1e-12)
     ctx.close('C20.crit/b', eos.b, R * Tc / (8. * Pc * BAR), rtol=1e-12)
